@@ -367,6 +367,20 @@ def _read_wire(path: Path) -> list:
     return out
 
 
+def _fold_config(wire: list, req_kind: str, ans_kind: str) -> list:
+    """Replace the (large) config payload -- the message that answers "config" -- by its digest."""
+    out, expect = [], False
+    for kind, msg in wire:
+        if expect and kind == ans_kind:
+            out.append([kind, "cfg:" + _digest(msg)])
+            expect = False
+            continue
+        if kind == req_kind and msg == "config":
+            expect = True
+        out.append([kind, msg])
+    return out
+
+
 def _process_timeout() -> float:
     import ropt.plugins.optimizer.external as ext
     return float(ext._PROCESS_TIMEOUT)
@@ -383,8 +397,8 @@ def run_impl(case: dict) -> dict:
     dump1 = cfg.model_dump(round_trip=True)
     wire = json.loads(json.dumps(dump1, cls=_np_encoder()))
     dump2 = EnOptConfig.model_validate(wire).model_dump(round_trip=True)
-    cfg_digest = _digest(bitify(wire))
-    cfg_roundtrip = _digest(bitify(json.loads(json.dumps(dump2, cls=_np_encoder())))) == cfg_digest
+    cfg_digest = "cfg:" + _digest(bitify(wire))
+    cfg_roundtrip = "cfg:" + _digest(bitify(json.loads(json.dumps(dump2, cls=_np_encoder())))) == cfg_digest
 
     inproc = _run_once(case, external=False, deadline=INPROC_DEADLINE_S)
 
@@ -439,9 +453,14 @@ def run_impl(case: dict) -> dict:
                 time.sleep(0.05)
                 alive = _pid_alive(pid)
         leftovers = sorted(str(p.relative_to(fifo_root)) for p in fifo_root.rglob("*"))
+        cw_all = _read_wire(clog)
         external.update({
             "child_started": started, "child_alive": bool(alive), "fifo_left": leftovers,
-            "pwire": _read_wire(plog), "cwire": _read_wire(clog), "limit_ms": int(limit * 1000),
+            "pwire": _fold_config(_read_wire(plog), "r", "w"),
+            "cwire": _fold_config([m for m in cw_all if m[0] in ("r", "w")], "w", "r"),
+            "fault_fired": any(m[0] == "fault" for m in cw_all),
+            "wire_broken": any(m[0] not in ("r", "w", "fault") for m in cw_all),
+            "limit_ms": int(limit * 1000),
             "after_ms": int((time.time() - t_end) * 1000),
         })
     finally:
@@ -487,3 +506,452 @@ def _kill_stray(pid, pidfile: Path) -> None:
         os.waitpid(pid, os.WNOHANG)
     except (ChildProcessError, OSError):
         pass
+
+
+# ---------------------------------------------------------------------------------------------
+# Gallina printing
+# ---------------------------------------------------------------------------------------------
+def _clean(text: str) -> str:
+    return "".join(c if 32 <= ord(c) <= 126 else "?" for c in str(text))[:300]
+
+
+def _zs(xs) -> str:
+    return "[" + "; ".join(str(int(x)) if int(x) >= 0 else f"({int(x)})" for x in xs) + "]"
+
+
+def _tensor_term(t: dict) -> str:
+    if t["d"] == 1:
+        return f"(T1 {_zs(t['x'])})"
+    return "(T2 [" + "; ".join(_zs(r) for r in t["x"]) + "])"
+
+
+def _res_term(r: list) -> str:
+    if r[0] == "ok":
+        return f"(EvOk {_tensor_term(r[1])} {_tensor_term(r[2])})"
+    if r[0] == "abort":
+        return f"(EvAbort {int(r[1]) if int(r[1]) >= 0 else '(' + str(int(r[1])) + ')'})"
+    return f"(EvRaise {cq.s(_clean(r[1]))})"
+
+
+def _trace_term(trace: list) -> str:
+    items = []
+    for e in trace:
+        eff = "[" + "; ".join(_zs(x) for x in e["eff"]) + "]"
+        items.append(f"(X {_tensor_term(e['v'])} {cq.b(e['rf'])} {cq.b(e['rg'])} {_res_term(e['res'])} {eff})")
+    return "([" + ";\n  ".join(items) + "])%Z"
+
+
+def _jv_term(o) -> str:
+    if o is None:
+        return "JNull"
+    if isinstance(o, bool):
+        return f"(JBool {cq.b(o)})"
+    if isinstance(o, str):
+        return f"(JStr {cq.s(_clean(o))})"
+    if isinstance(o, (list, tuple)):
+        return "(JArr [" + "; ".join(_jv_term(x) for x in o) + "])"
+    if isinstance(o, dict):
+        if set(o) == {"$f"}:
+            return f"(JNum {int(o['$f'])})"
+        if set(o) == {"$i"}:
+            n = int(o["$i"])
+            return f"(JInt {n})" if n >= 0 else f"(JInt ({n}))"
+        if set(o) == {"$repr"}:
+            return f"(JStr {cq.s(_clean(o['$repr']))})"
+        return "(JObj [" + "; ".join(f"({cq.s(_clean(k))}, {_jv_term(v)})" for k, v in o.items()) + "])"
+    return f"(JStr {cq.s(_clean(repr(o)))})"
+
+
+def _wire_term(wire: list, read_kind: str) -> str:
+    return "([" + ";\n  ".join(f"({'WR' if k == read_kind else 'WW'} {_jv_term(m)})" for k, m in wire) + "])%Z"
+
+
+def _out_term(out: list) -> str:
+    if out[0] == "exit":
+        n = int(out[1])
+        return f"(OExit {n})" if n >= 0 else f"(OExit ({n}))"
+    if out[0] == "raise":
+        return f"(ORaise {cq.s(_clean(out[1]))})"
+    return "OHang"
+
+
+def _end_of(inproc: dict) -> list:
+    """How the optimizer itself ended in-process: ["stop"] or ["fail", message]."""
+    out, trace = inproc["out"], inproc["trace"]
+    if out[0] == "raise" and (not trace or trace[-1]["res"][0] == "ok"):
+        return ["fail", out[2] if len(out) > 2 else ""]
+    return ["stop"]
+
+
+def _fault_terms(case: dict) -> tuple[str, str]:
+    f = case.get("fault") or ["none"]
+    if f[0] == "kill":
+        return f"(DieAfter {cq.nat(f[1])})", "None"
+    if f[0] == "exit":
+        return f"(ExitAfter {cq.nat(f[1])} {int(f[2])})", "None"
+    if f[0] == "raise":
+        return "NoFault", f"(Some {cq.nat(f[1])})"
+    return "NoFault", "None"
+
+
+def coq_case(case: dict, obs: dict) -> str:
+    i, e = obs["inproc"], obs["ext"]
+    end = _end_of(i)
+    end_t = "Stop" if end[0] == "stop" else f"(Fail {cq.s(_clean(end[1]))})"
+    flt, raise_at = _fault_terms(case)
+    fields = [
+        f"(JStr {cq.s(obs['cfg_digest'])})",
+        cq.b(obs["cfg_roundtrip"]),
+        "(" + _zs(bits(v) for v in case["init"]) + ")%Z",
+        _trace_term(i["trace"]),
+        end_t,
+        "(" + _out_term(i["out"]) + ")%Z",
+        "(" + _zs(i["best"]) + ")%Z",
+        "(" + flt + ")%Z",
+        raise_at,
+        _trace_term(e["trace"]),
+        "(" + _out_term(e["out"]) + ")%Z",
+        "(" + _zs(e["best"]) + ")%Z",
+        _wire_term(e["pwire"], "r"),
+        _wire_term(e["cwire"], "r"),
+        cq.b(e["fault_fired"]),
+        cq.b(e["child_started"]),
+        cq.b(e["child_alive"]),
+        cq.nat(min(len(e["fifo_left"]), 1000)),
+        cq.nat(min(len(i["stray"]) + len(e["stray"]) + (1 if e["wire_broken"] else 0), 1000)),
+        f"({int(e['wall_ms'])})%Z",
+    ]
+    return "(Build_case\n " + "\n ".join(fields) + ")"
+
+
+# ---------------------------------------------------------------------------------------------
+# the property's predicate on the observation (independent of the model)
+# ---------------------------------------------------------------------------------------------
+FINISHED = 5      # OptimizerExitCode.OPTIMIZER_STEP_FINISHED; re-read from ropt in oracle()
+
+
+def _finished_code() -> int:
+    try:
+        from ropt.enums import OptimizerExitCode
+        return int(OptimizerExitCode.OPTIMIZER_STEP_FINISHED.value)
+    except Exception:  # noqa: BLE001
+        return FINISHED
+
+
+def _faulted(case: dict) -> bool:
+    return (case.get("fault") or ["none"])[0] != "none"
+
+
+def oracle(case: dict, obs: dict):
+    i, e = obs["inproc"], obs["ext"]
+    fin = _finished_code()
+    if i["hang"]:
+        return {"clause": "in-process-run-hangs", "detail": i["out"]}
+    if e["hang"] or e["out"][0] == "hang":
+        return {"clause": "never-hangs", "detail": {"fault": case.get("fault"), "wall_ms": e["wall_ms"]}}
+    if e["wall_ms"] > e["limit_ms"]:
+        return {"clause": "never-hangs(wall-time)", "detail": {"wall_ms": e["wall_ms"], "limit_ms": e["limit_ms"]}}
+    if not e["child_started"]:
+        return {"clause": "child-not-started", "detail": e["out"]}
+    if e["child_alive"]:
+        return {"clause": "no-orphan", "detail": {"fault": case.get("fault"), "out": e["out"]}}
+    if e["fifo_left"]:
+        return {"clause": "no-fifo-left", "detail": e["fifo_left"][:5]}
+    error_reported = any(k == "r" and isinstance(m, dict) and m.get("error") is not None for k, m in e["pwire"])
+    if (e["fault_fired"] or error_reported) and e["out"][0] == "exit" and e["out"][1] == fin:
+        return {"clause": "death-or-error-is-never-success",
+                "detail": {"fault": case.get("fault"), "fault_fired": e["fault_fired"],
+                           "error_reported": error_reported, "out": e["out"]}}
+    if not obs["cfg_roundtrip"]:
+        return {"clause": "config-roundtrip", "detail": "dump -> JSON -> validate -> dump differs"}
+    # both ends of the pipe saw the same messages
+    c_w = [m for k, m in e["cwire"] if k == "w"]
+    c_r = [m for k, m in e["cwire"] if k == "r"]
+    p_r = [m for k, m in e["pwire"] if k == "r"]
+    p_w = [m for k, m in e["pwire"] if k == "w"]
+    if c_w != p_r or c_r != p_w[:len(c_r)] or len(p_w) > len(c_r) + 1:
+        return {"clause": "lossless-channel", "detail": {"child_wrote": len(c_w), "parent_read": len(p_r),
+                                                         "parent_wrote": len(p_w), "child_read": len(c_r)}}
+    if i["stray"] or e["stray"]:
+        return {"clause": "evaluation-outside-callback", "detail": len(i["stray"]) + len(e["stray"])}
+    if not _faulted(case):
+        if e["trace"] != i["trace"]:
+            k = next((n for n, (a, b) in enumerate(zip(e["trace"], i["trace"])) if a != b),
+                     min(len(e["trace"]), len(i["trace"])))
+            return {"clause": "trace-equal", "detail": {"first_difference_at_callback": k,
+                                                        "external": len(e["trace"]), "inproc": len(i["trace"])}}
+        if e["out"][0] != i["out"][0] or (e["out"][0] == "exit" and e["out"][1] != i["out"][1]):
+            return {"clause": "exit-code-equal", "detail": {"external": e["out"], "inproc": i["out"]}}
+        if e["best"] != i["best"]:
+            return {"clause": "optimum-equal", "detail": {"external": e["best"], "inproc": i["best"]}}
+    else:
+        if e["trace"] != i["trace"][:len(e["trace"])]:
+            return {"clause": "evaluations-before-death-are-a-prefix", "detail": {"external": len(e["trace"])}}
+    return None
+
+
+def nontrivial(case: dict, obs: dict) -> bool:
+    return bool(obs["ext"]["child_started"]) and (len(obs["inproc"]["trace"]) >= 1 or _faulted(case))
+
+
+def features(case: dict, obs: dict) -> dict:
+    i, e = obs["inproc"], obs["ext"]
+    n = len(i["trace"])
+    return {
+        "method": case["method"],
+        "fault": (case.get("fault") or ["none"])[0],
+        "fault_fired": e["fault_fired"],
+        "callbacks": "0" if n == 0 else "1-4" if n <= 4 else "5-12" if n <= 12 else "13+",
+        "inproc_outcome": i["out"][0] + (":" + str(i["out"][1]) if i["out"][0] != "hang" else ""),
+        "external_outcome": e["out"][0] + (":" + str(e["out"][1]) if e["out"][0] != "hang" else ""),
+        "constraints": bool(case.get("ncon")) or case.get("lin") is not None,
+        "mask": case.get("mask") is not None,
+        "nan": bool(case.get("nan")),
+        "abort_at": case.get("abort_at") is not None,
+        "eval_raise_at": case.get("eval_raise_at") is not None,
+        "parallel": bool(case.get("parallel")),
+    }
+
+
+def known_signature(case, obs, violation):
+    return None
+
+
+# ---------------------------------------------------------------------------------------------
+# generators
+# ---------------------------------------------------------------------------------------------
+METHODS = ("slsqp", "l-bfgs-b", "nelder-mead", "differential_evolution")
+
+
+def _dy(rng, lo: int, hi: int, den: int = 8) -> float:
+    return rng.randint(lo, hi) / den
+
+
+def rand_base(rng, method: str | None = None, flavour: str | None = None) -> dict:
+    """A small, valid configuration of one of the supported in-process methods (no fault yet)."""
+    method = method or rng.choice(METHODS)
+    nvar = 2 if method in ("nelder-mead", "differential_evolution") else rng.choice([2, 3])
+    nobj = rng.choice([1, 1, 2])
+    nreal = rng.choice([1, 2, 3])
+    case: dict = {
+        "method": method,
+        "init": [_dy(rng, -4, 4) for _ in range(nvar)],
+        "obj_weights": [rng.choice([0.25, 0.5, 0.75, 1.0]) for _ in range(nobj)],
+        "real_weights": [rng.choice([0.25, 0.5, 1.0]) for _ in range(nreal)],
+        "centers": [[_dy(rng, -6, 6) for _ in range(nvar)] for _ in range(nobj)],
+        "real_shift": rng.choice([0.0, 0.125, 0.25]),
+        "pert": rng.choice([2, 3]),
+        "pert_mag": rng.choice([0.01, 0.0625]),
+        "tolerance": 1e-4,
+        "fault": ["none"],
+    }
+    bounded = method == "differential_evolution" or rng.random() < 0.5
+    if bounded and method != "nelder-mead" or method == "differential_evolution":
+        case["lower"] = [-1.0 - _dy(rng, 0, 4) for _ in range(nvar)]
+        case["upper"] = [1.0 + _dy(rng, 0, 4) for _ in range(nvar)]
+    if method in ("slsqp", "l-bfgs-b") and nvar == 3 and rng.random() < 0.5:
+        mask = [True, True, True]
+        mask[rng.randrange(3)] = False
+        case["mask"] = mask
+    if method == "slsqp":
+        if rng.random() < 0.6:
+            ncon = rng.choice([1, 2])
+            case["ncon"] = ncon
+            case["con_coef"] = [[_dy(rng, -4, 4, 4) for _ in range(nvar)] for _ in range(ncon)]
+            case["con_lower"] = [rng.choice([None, -2.0, -1.0]) for _ in range(ncon)]
+            case["con_upper"] = [rng.choice([1.0, 2.0]) if lo is not None and rng.random() < 0.5
+                                 else (1.5 if lo is None else None) for lo in case["con_lower"]]
+        if rng.random() < 0.4:
+            case["lin"] = {"coef": [[1.0] + [_dy(rng, -4, 4, 4) for _ in range(nvar - 1)]],
+                           "lower": [None], "upper": [2.0 + _dy(rng, 0, 8)]}
+        case["speculative"] = rng.random() < 0.3
+        case["split"] = rng.random() < 0.3
+    if method == "differential_evolution":
+        case["options"] = {"seed": rng.randint(1, 10 ** 6), "popsize": rng.choice([2, 3]),
+                           "maxiter": rng.choice([1, 2]), "init": rng.choice(["random", "latinhypercube"])}
+        case["parallel"] = rng.random() < 0.5
+        if not case["parallel"]:
+            case["max_functions"] = rng.choice([4, 6, 8])
+    elif method == "nelder-mead":
+        case["max_functions"] = rng.choice([3, 4, 5, 6])
+    else:
+        case["max_functions"] = rng.choice([2, 3, 4])
+        if rng.random() < 0.3:
+            case["options"] = {"maxiter": rng.choice([1, 2])}
+    flavour = flavour or rng.choice(["plain", "plain", "plain", "nan", "toofew", "abort", "evraise", "opterr"])
+    case["flavour"] = flavour
+    if flavour == "nan" and nreal >= 2:
+        case["nan"] = [[rng.randint(0, 3), rng.randrange(nreal)]]
+        case["min_success"] = rng.choice([0, 1])
+    elif flavour == "toofew":
+        call = rng.randint(0, 2)
+        case["nan"] = [[call, r] for r in range(nreal * 8)]
+        if method == "differential_evolution":
+            case["min_success"] = 0       # DE allows NaN: all-failed evaluations become +inf
+    elif flavour == "abort":
+        case["abort_at"] = rng.randint(0, 3)
+    elif flavour == "evraise":
+        case["eval_raise_at"] = rng.randint(0, 3)
+    elif flavour == "opterr" and method in ("slsqp", "l-bfgs-b"):
+        case["options"] = {"ftol": "foo"}
+    return case
+
+
+def _probe_callbacks(case: dict) -> int:
+    """Number of optimizer callbacks of the in-process run (to place crash points); bound on failure."""
+    try:
+        r = _run_once({**case, "fault": ["none"]}, external=False, deadline=20)
+        n = len(r["trace"])
+        if r["out"][0] == "raise" and (not r["trace"] or r["trace"][-1]["res"][0] == "ok"):
+            n += 1                     # the error report is a message too
+        return n
+    except BaseException:  # noqa: BLE001
+        return 2 * int(case.get("max_functions") or 4) + 1
+
+
+def _crash_cases(case: dict, ks, codes=(), raises=()):
+    for k in ks:
+        yield {**case, "fault": ["kill", int(k)]}
+    for k, code in codes:
+        yield {**case, "fault": ["exit", int(k), int(code)]}
+    for j in raises:
+        yield {**case, "fault": ["raise", int(j)]}
+
+
+def long_base(rng, method: str = "slsqp") -> dict:
+    """A run of about 12 callbacks whose every crash point is exercised in the thorough tier."""
+    case = rand_base(rng, method, "plain")
+    case.pop("options", None)
+    case["max_functions"] = 6
+    if method == "slsqp":
+        case["speculative"] = False
+        case["split"] = False
+    return case
+
+
+def gen_cases(tier, rng):
+    quick = tier == "quick"
+    # (a) equality pairs: every method, every flavour
+    flavours = ["plain", "nan", "toofew", "abort", "evraise", "opterr"]
+    pairs = [(m, "plain") for m in METHODS] + \
+            [("slsqp", f) for f in flavours[1:]] + \
+            [("l-bfgs-b", "abort"), ("differential_evolution", "nan"), ("nelder-mead", "evraise"),
+             ("differential_evolution", "toofew")]
+    if not quick:
+        pairs = pairs * 2 + [(rng.choice(METHODS), rng.choice(flavours)) for _ in range(60)]
+    bases = []
+    for m, f in pairs:
+        c = rand_base(rng, m, f)
+        bases.append(c)
+        yield c
+    # (b) crash points: child killed / exiting / raising after k messages, on plain and on faulty runs
+    n_crash_bases = 3 if quick else 10
+    for b in range(n_crash_bases):
+        base = rand_base(rng, METHODS[b % len(METHODS)], rng.choice(["plain", "plain", "abort", "evraise", "nan"]))
+        n = _probe_callbacks(base)
+        total = n + 2                                        # config, initial_values, callbacks (+ error)
+        ks = list(range(0, total + 1))
+        if quick:
+            ks = sorted(set([0, 1, 2, total - 1, total] + rng.sample(ks, min(3, len(ks)))))
+            ks = [k for k in ks if 0 <= k <= total][:7]
+        codes = [(rng.randint(0, total - 1), rng.choice([1, 2, 3, 120, 255]))
+                 for _ in range(2 if quick else 5)]
+        raises = rng.sample(range(max(1, n)), min(2 if quick else 4, max(1, n)))
+        yield from _crash_cases(base, ks, codes, raises)
+    # (c) thorough: every crash point / exit point / raising callback / raising evaluation of a ~12-callback run
+    if not quick:
+        for method in ("slsqp", "l-bfgs-b", "nelder-mead"):
+            base = long_base(rng, method)
+            n = _probe_callbacks(base)
+            total = n + 2
+            yield base
+            yield from _crash_cases(base, range(0, total + 1),
+                                    [(k, 3) for k in range(0, total)], range(0, n))
+            for j in range(0, n + 1):
+                yield {**base, "eval_raise_at": j, "flavour": "evraise"}
+            for j in range(0, n + 1):
+                yield {**base, "abort_at": j, "flavour": "abort"}
+        for _ in range(80):
+            base = rand_base(rng)
+            n = _probe_callbacks(base)
+            kind = rng.choice(["kill", "kill", "exit", "raise"])
+            if kind == "kill":
+                yield {**base, "fault": ["kill", rng.randint(0, n + 2)]}
+            elif kind == "exit":
+                yield {**base, "fault": ["exit", rng.randint(0, n + 2), rng.choice([1, 2, 3, 9, 120, 255])]}
+            else:
+                yield {**base, "fault": ["raise", rng.randint(0, max(0, n - 1))]}
+
+
+def shrink(case: dict):
+    """A few simpler candidates (every candidate costs a real external run)."""
+    if case.get("fault", ["none"])[0] != "none" and case["fault"][0] in ("kill", "exit") and case["fault"][1] > 0:
+        yield {**case, "fault": [case["fault"][0], 0] + list(case["fault"][2:])}
+    simple = {k: v for k, v in case.items() if k not in ("ncon", "con_coef", "con_lower", "con_upper", "lin", "mask",
+                                                         "nan", "min_success", "speculative", "split")}
+    if simple != case:
+        yield simple
+
+
+def search(rng, case):
+    if case is None:
+        for m in METHODS:
+            yield rand_base(rng, m, "plain")
+        return
+    yield {**case, "fault": ["none"]}
+    for k in range(0, 6):
+        yield {**case, "fault": ["kill", k]}
+    yield {**case, "fault": ["exit", 2, 3]}
+    yield {**case, "fault": ["raise", 0]}
+
+
+RULE = ("every case = one in-process run and one run through external/<method> (real child process started through the "
+        "PATH wrapper) of the same seeded configuration: methods slsqp / l-bfgs-b / nelder-mead / differential_evolution(seed, "
+        "also parallel) with 1-2 objectives, 1-3 realizations, nonlinear and linear constraints, bounds, variable masks, "
+        "speculative / split evaluations, max_functions / maxiter, NaN failures (tolerated, too-few, allowed for DE), user abort "
+        "at evaluation j, the user's evaluator raising at call j, an optimizer option that makes the optimizer itself fail; "
+        "faults: child SIGKILLed after k = 0..n+2 exchanged messages, child exiting with code 1/2/3/9/120/255 after k messages, "
+        "the optimizer's j-th callback raising inside the child.  quick: 12 equality pairs + 3 base runs x (up to 7 kill points, "
+        "2 exit points, 2 raising callbacks); thorough: 84 equality pairs, 10 base runs x all crash points, and for three "
+        "~12-callback runs every kill point, every exit point, every raising callback, every raising evaluation and every abort "
+        "point, plus 80 random faulted runs.  Non-trivial = the child process was started and the run has at least one "
+        "callback or a fault; distinct = distinct (configuration, fault).")
+ASSUMPTIONS = [
+    "the optimizer algorithm is a deterministic function of the configuration, the initial values and the answers it received "
+    "(SciPy methods with a fixed seed); it is replayed in the model as the script observed in the in-process run",
+    "the user's evaluator is deterministic in (call index, request); its observed behaviour in the in-process run is the model's evaluator",
+    "JSON text round trip of finite floats, NaN and infinities is exact up to NaN payload (repr floats; checked on every message by comparing "
+    "both ends of the pipe bit by bit) and the validated config survives dump -> JSON -> validate -> dump (checked on every case)",
+    "'the evaluator raises' is read as: raises an Exception (BaseException such as KeyboardInterrupt is outside the reading)",
+]
+TRUSTED = [
+    "OS behaviour is NOT modelled (partial): signal delivery, FIFO buffering, process scheduling and real time-outs are exercised only by the "
+    "real-process correspondence (wall time below _PROCESS_TIMEOUT + 20 s, child pid not alive, FIFO directory empty)",
+    "harness/c20_wrapper/ropt_plugin_optimizer (PATH wrapper: imports ropt from the tree under test, pid file, child-side wire log, kill/exit/raise "
+    "fault, then ropt's own entry point) and the recording monkey-patches of the harness process "
+    "(EnsembleOptimizer._optimizer_callback, _JSONPipeCommunicator.read/write)",
+    "SciPy optimizers and the EnsembleEvaluator are black boxes here: only their observable request/answer sequence is used",
+]
+
+MANIFEST = {
+    "level_text": ("Machine-checked Coq proof about an executable message-level model of ropt/plugins/optimizer/external.py (child program, "
+                   "parent request loop with its answer/exception variables and write retry, JSON encode/decode of the four request and four "
+                   "answer kinds, kill/exit faults): for every optimizer strategy, evaluator and pipe schedule the external run makes exactly "
+                   "the in-process callbacks and ends the same way (C20_lossless_*, C20_trace_equal); for every crash point k the run ends with "
+                   "the abnormal-termination error after a prefix of the evaluations, a non-zero return code or a read error report never "
+                   "yields a normal return, and a normal return implies the complete run (C20_fault_outcome, C20_death_never_success, "
+                   "C20_success_is_complete, C20_raise_not_finished); the loop is left in the pass after the child is gone and every finite "
+                   "script terminates within |script|+3 ready passes (C20_poll_exit, C20_terminates); in every final state the child is not "
+                   "running (C20_no_orphan); results do not depend on the pipe schedule (C20_schedule_independent).  The model is tied to the "
+                   "code on every run by an in-Coq correspondence over REAL process pairs: byte-identical callback / evaluator / result traces, "
+                   "exit code and optimum of external vs in-process runs, both ends of the pipe, and the model's predicted outcome, trace, wire "
+                   "messages and child liveness under kill / exit / raise faults at every crash point."),
+    "level_note": ("PARTIAL with respect to OS behaviour: signal delivery, FIFO buffering, scheduling and real time-outs cannot be exhibited by the "
+                   "Gallina model (`terminate` assumes SIGTERM + wait ends a running child, `poll` reports a dead child, FIFOs deliver what was "
+                   "written); these are exercised only by the real-process correspondence (wall time < _PROCESS_TIMEOUT + 20 s, child pid dead, "
+                   "FIFO directory empty).  Trusted: Coq kernel + VM; the PATH wrapper and the recording monkey-patches; SciPy and the evaluator "
+                   "as black boxes replayed from the in-process run; the translator copying _PROCESS_TIMEOUT and OptimizerExitCode.  'Evaluator "
+                   "raises' is read as Exception (not BaseException).  All theorems print 'Closed under the global context'."),
+    "technique": "Coq proof (induction over fuel/schedules on an executable protocol state machine) + in-Coq differential correspondence with real parent/child process pairs under injected faults",
+    "design_ref": "DESIGN.md section 4, C20",
+}
